@@ -30,10 +30,11 @@ Trees(Ids, max) ==
 GoodTree(t) == /\ t.root \in t.verts
                /\ \A c1, c2 \in DOMAIN t.par : (c1 # c2 /\ t.par[c1] = t.par[c2]) => t.lab[c1] # t.lab[c2]
                /\ \A v \in t.verts : Cardinality({c \in DOMAIN t.par : t.par[c] = v}) <= MaxN
-\* extras: a set of vertices outside the tree, each with a mark, optionally one detached edge between two of them
+\* extras: a set of vertices outside the tree, each with a mark (no datum, an unread one, one that was read before the
+\* merge - a vertex that is present all the same), optionally one detached edge between two of them
 Extras(t, Ids) ==
   UNION { { [verts |-> E, dat |-> dat, edge |-> ed] :
-              dat \in [E -> {"n", "u"}],
+              dat \in [E -> {"n", "u", "t"}],
               ed \in {<<>>} \cup {p \in E \X E : p[1] # p[2]} } :
           E \in {W \in SUBSET (Ids \ t.verts) : Cardinality(W) <= MaxExtra} }
 
@@ -49,10 +50,13 @@ Calls(t) ==
   \o [i \in 1..Len(rs) |-> [op |-> "data", v |-> rs[i]]]
 ExtraCalls(x) ==
   LET vs == SetToSeq(x.verts)
-      ds == SetToSeq({v \in x.verts : x.dat[v] = "u"}) IN
+      ds == SetToSeq({v \in x.verts : x.dat[v] # "n"})
+      rs == SetToSeq({v \in x.verts : x.dat[v] = "t"}) IN
   [i \in 1..Len(vs) |-> [op |-> "add", v |-> vs[i]]]
-  \o (IF x.edge = <<>> THEN <<>> ELSE <<[op |-> "bind", v1 |-> x.edge[1], v2 |-> x.edge[2], a |-> CHOOSE a \in Labels : TRUE]>>)
   \o [i \in 1..Len(ds) |-> [op |-> "put", v |-> ds[i], d |-> "x"]]
+  \* the reads come before the detached edge is bound: a read extra stays present (it is in no group yet)
+  \o [i \in 1..Len(rs) |-> [op |-> "data", v |-> rs[i]]]
+  \o (IF x.edge = <<>> THEN <<>> ELSE <<[op |-> "bind", v1 |-> x.edge[1], v2 |-> x.edge[2], a |-> CHOOSE a \in Labels : TRUE]>>)
 Apply(g, c) == CASE c.op = "add" -> AddOp(g, c.v)
                  [] c.op = "bind" -> BindOp(g, c.v1, c.v2, c.a)
                  [] c.op = "put" -> PutOp(g, c.v, c.d)
